@@ -1,6 +1,1051 @@
-//! C06 — stub (not built yet).
+//! C06 — records written in presentation format read back equal.
+//!
+//! Writer: `ZonefileFmt::display_zonefile(Simple | Tabbed | Multiline)` on
+//! `Record<Name<Bytes>, ZoneRecordData<Bytes, Name<Bytes>>>` (which renders
+//! unknown types in the RFC 3597 generic form). Reader:
+//! `zonefile::inplace::Zonefile` with and without an origin. Oracle: both
+//! records composed uncompressed are octet-for-octet equal.
 use crate::engine::*;
+use crate::gen::name::{self as gn, Labels};
+use crate::gen::rdata as gr;
+use crate::gen::*;
+use crate::refimpl::rdata::{self as rr, F};
+use crate::refimpl::wire;
+use arbitrary::Unstructured;
+use bytes::Bytes;
+use domain::base::message::Message;
+use domain::base::name::{FlattenInto, Name, ParsedName};
+use domain::base::zonefile_fmt::{DisplayKind, ZonefileFmt};
+use domain::base::Record;
+use domain::rdata::ZoneRecordData;
+use domain::zonefile::inplace::{Entry, Zonefile};
+use std::collections::BTreeMap;
+
+type ZData = ZoneRecordData<Bytes, Name<Bytes>>;
+type ZRec = Record<Name<Bytes>, ZData>;
+
+//------------ Case ----------------------------------------------------------
+
+#[derive(Clone, Debug, PartialEq, Eq, Hash)]
+struct Rec {
+    owner: Labels,
+    ttl: u32,
+    rtype: u16,
+    rdata: Vec<u8>,
+}
+
+#[derive(Clone, Debug, Hash)]
+struct Case {
+    kind: u8, // 0 simple, 1 tabbed, 2 multiline
+    origin: Option<Labels>,
+    class: u16,
+    recs: Vec<Rec>,
+}
+
+#[derive(Clone, Copy, PartialEq, Eq, Debug)]
+enum Mode {
+    /// arbitrary octets everywhere
+    Full,
+    /// names and strings avoid the octets of the known (unfixed) findings
+    Restricted,
+    /// harness-written RFC 3597 generic form for every type
+    Generic,
+}
+
+const KINDS: [&str; 3] = ["simple", "tabbed", "multiline"];
+
+fn display_kind(k: u8) -> DisplayKind {
+    match k {
+        0 => DisplayKind::Simple,
+        1 => DisplayKind::Tabbed,
+        _ => DisplayKind::Multiline,
+    }
+}
+
+/// Type codes without a typed representation in `ZoneRecordData`: private
+/// use, unassigned, assigned but unimplemented (WKS 11, AFSDB 18, SINK 40,
+/// SPF 99, URI 256), and the non-zone types the library knows (NULL 10).
+const UNKNOWN_TYPES: &[u16] = &[99, 258, 1234, 65280, 65534, 32768, 11, 18, 40, 10, 256, 65535, 0x00ff + 2, 62];
+
+fn gen_ttl(u: &mut Unstructured) -> u32 {
+    match pick(u, 4) {
+        0 => [0u32, 1, 3600, 0x7fff_ffff, 0x8000_0000, 0xffff_ffff, 86400, 60][pick(u, 8)],
+        1 => u16_(u) as u32,
+        _ => u32_(u),
+    }
+}
+
+fn gen_class(u: &mut Unstructured) -> u16 {
+    match pick(u, 8) {
+        0..=3 => 1,
+        4 => 3,
+        5 => 4,
+        6 => [2u16, 5, 0, 253, 254, 255, 256, 65535, 65280, 1000][pick(u, 10)],
+        _ => u16_(u),
+    }
+}
+
+/// Decoding does not depend on the tier: a replay file must decode to the
+/// same case whichever tier replays it.
+fn decode(u: &mut Unstructured, mode: Mode) -> Case {
+    // Cheap structural choices first, bulky names last, so that short
+    // inputs still give varied record types.
+    let kind = pick(u, 3) as u8;
+    let class = gen_class(u);
+    let plain = false;
+    let k = match pick(u, 8) {
+        0..=3 => 1,
+        4..=6 => 1 + pick(u, 4),
+        _ => 1 + pick(u, 8),
+    };
+    let max_blob = if chance(u, 24) { 2000 } else { 300 };
+    let origin_sel = pick(u, 6);
+    let heads: Vec<(u16, u32, u8)> = (0..k)
+        .map(|_| {
+            let b = byte(u) as usize;
+            let rtype = if b >= 232 {
+                UNKNOWN_TYPES[(b - 232) * UNKNOWN_TYPES.len() / 24]
+            } else {
+                rr::ZONE_TYPES[b * rr::ZONE_TYPES.len() / 232]
+            };
+            (rtype, gen_ttl(u), byte(u))
+        })
+        .collect();
+    let npool = 1 + pick(u, 3);
+    let names = gn::pool(u, npool, plain);
+    let mut recs = vec![];
+    for (rtype, ttl, osel) in heads {
+        let o = gr::Opts { plain_names: plain, max_blob };
+        let rdata = gr::rdata(u, rtype, &names, o);
+        let owner = match osel {
+            0..=99 => names[osel as usize % names.len()].clone(),
+            100..=119 => vec![],
+            120..=139 => {
+                let mut n = names[osel as usize % names.len()].clone();
+                if gn::wire_len(&n) + 2 <= 255 {
+                    n.insert(0, b"*".to_vec());
+                }
+                n
+            }
+            _ => gn::name(u, plain),
+        };
+        let mut r = Rec { owner, ttl, rtype, rdata };
+        widen(u, &mut r);
+        normalise(&mut r);
+        if mode == Mode::Restricted {
+            r = restrict(&r);
+        }
+        recs.push(r);
+    }
+    let origin = match origin_sel {
+        0 | 1 | 2 => None,
+        3 => Some(vec![b"example".to_vec(), b"com".to_vec()]),
+        4 => Some(names[0].clone()),
+        _ => Some(gn::name(u, plain)),
+    };
+    Case { kind, origin, class, recs }
+}
+
+/// Splits SVCB/HTTPS RDATA into the offset of the parameters and the list
+/// of (key, value).
+fn svc_split(r: &Rec) -> Option<(usize, Vec<(u16, Vec<u8>)>)> {
+    if r.rtype != rr::SVCB && r.rtype != rr::HTTPS {
+        return None;
+    }
+    let &(off, len, _, _) = rr::name_spans(r.rtype, &r.rdata).first()?;
+    let start = off + len;
+    let mut params: Vec<(u16, Vec<u8>)> = vec![];
+    let mut p = start;
+    while p + 4 <= r.rdata.len() {
+        let k = u16::from_be_bytes([r.rdata[p], r.rdata[p + 1]]);
+        let n = u16::from_be_bytes([r.rdata[p + 2], r.rdata[p + 3]]) as usize;
+        if p + 4 + n > r.rdata.len() {
+            return None;
+        }
+        params.push((k, r.rdata[p + 4..p + 4 + n].to_vec()));
+        p += 4 + n;
+    }
+    Some((start, params))
+}
+
+fn svc_build(r: &mut Rec, start: usize, params: Vec<(u16, Vec<u8>)>) {
+    r.rdata.truncate(start);
+    for (k, v) in params {
+        r.rdata.extend_from_slice(&k.to_be_bytes());
+        r.rdata.extend_from_slice(&(v.len() as u16).to_be_bytes());
+        r.rdata.extend_from_slice(&v);
+    }
+}
+
+/// Removes the SVCB parameters with the given key (also from `mandatory`).
+fn svc_without(r: &Rec, pred: &dyn Fn(u16) -> bool) -> Rec {
+    let mut out = r.clone();
+    if let Some((start, params)) = svc_split(r) {
+        let mut keep: Vec<(u16, Vec<u8>)> = vec![];
+        for (k, v) in params {
+            if k != 0 && pred(k) {
+                continue;
+            }
+            if k == 0 {
+                let v2: Vec<u8> = v.chunks(2).filter(|c| c.len() == 2 && !pred(u16::from_be_bytes([c[0], c[1]]))).flatten().copied().collect();
+                if !v2.is_empty() {
+                    keep.push((0, v2));
+                }
+            } else {
+                keep.push((k, v));
+            }
+        }
+        svc_build(&mut out, start, keep);
+    }
+    out
+}
+
+/// Value spaces the shared generator covers only narrowly: ALPN ids with
+/// arbitrary octets and `dohpath` values with arbitrary (UTF-8) text.
+fn widen(u: &mut Unstructured, r: &mut Rec) {
+    let Some((start, mut params)) = svc_split(r) else { return };
+    if params.is_empty() || !flag(u) {
+        return;
+    }
+    for (k, v) in params.iter_mut() {
+        match *k {
+            1 => {
+                // "," and "\" inside an ALPN id are excluded: the reader
+                // documents that it does not implement the value-list
+                // escaping (RFC 9460 §7.1.1 allows that).
+                let mut p = 0;
+                while p < v.len() {
+                    let l = v[p] as usize;
+                    let e = (p + 1 + l).min(v.len());
+                    for b in v[p + 1..e].iter_mut() {
+                        let c = match pick(u, 4) {
+                            0 | 1 => *b,
+                            2 => gn::SPECIAL[pick(u, gn::SPECIAL.len())],
+                            _ => byte(u),
+                        };
+                        if c != b',' && c != b'\\' {
+                            *b = c;
+                        }
+                    }
+                    p += 1 + l;
+                }
+            }
+            7 => {
+                const ASCII: &[u8] = b"/abcxyzABC019-._~{}?=;,()@$!*'+&:%#[]";
+                const OTHER: &[&str] = &[" ", "\"", "\\", "\t", "\u{e9}", "\u{20ac}", "\u{1f600}", "\u{7f}", "\u{0}", "\n"];
+                let n = pick(u, 24);
+                let mut t = String::new();
+                for _ in 0..n {
+                    if chance(u, 40) {
+                        t.push_str(OTHER[pick(u, OTHER.len())]);
+                    } else {
+                        t.push(ASCII[pick(u, ASCII.len())] as char);
+                    }
+                }
+                *v = t.into_bytes();
+            }
+            _ => {}
+        }
+    }
+    svc_build(r, start, params);
+}
+
+/// Keeps generated RDATA inside the domain that has a presentation format.
+fn normalise(r: &mut Rec) {
+    if let Some((start, params)) = svc_split(r) {
+        // RFC 9460 §8: every key listed in "mandatory" must be present (the
+        // reader enforces it). The shared generator lists `alpn` when
+        // `mandatory` is the only parameter; drop such a parameter.
+        let keys: Vec<u16> = params.iter().map(|x| x.0).collect();
+        let ok = |v: &[u8]| v.chunks(2).all(|c| c.len() == 2 && keys.contains(&u16::from_be_bytes([c[0], c[1]])));
+        if params.iter().any(|(k, v)| *k == 0 && !ok(v)) {
+            svc_build(r, start, params.into_iter().filter(|p| p.0 != 0).collect());
+        }
+    }
+    if let Some((start, mut params)) = svc_split(r) {
+        // key 9 (tls-supported-groups) is typed in this version of the
+        // library: a non-empty list of distinct 16-bit values. The shared
+        // generator produces an opaque blob for it.
+        let mut changed = false;
+        for (k, v) in params.iter_mut() {
+            if *k == 1 {
+                // "," and "\" inside an ALPN id: the reader documents that
+                // it does not implement the value-list escaping and rejects
+                // them (RFC 9460 §7.1.1 allows that), so no text exists that
+                // it would read back.
+                let mut p = 0;
+                while p < v.len() {
+                    let e = (p + 1 + v[p] as usize).min(v.len());
+                    for b in v[p + 1..e].iter_mut() {
+                        if *b == b',' || *b == b'\\' {
+                            *b = if *b == b',' { b'-' } else { b'_' };
+                            changed = true;
+                        }
+                    }
+                    p = e;
+                }
+            }
+            if *k == 5 && v.is_empty() {
+                // an ECHConfigList is never empty (2-octet length prefix);
+                // the reader documents "ech requires a value"
+                *v = vec![0, 0];
+                changed = true;
+            }
+            if *k == 9 {
+                let mut seen: Vec<[u8; 2]> = vec![];
+                for c in v.chunks(2) {
+                    if c.len() == 2 && !seen.contains(&[c[0], c[1]]) {
+                        seen.push([c[0], c[1]]);
+                    }
+                }
+                if seen.is_empty() {
+                    seen.push([0, 0x1d]);
+                }
+                let nv: Vec<u8> = seen.into_iter().flatten().collect();
+                if nv != *v {
+                    *v = nv;
+                    changed = true;
+                }
+            }
+        }
+        if changed {
+            svc_build(r, start, params);
+        }
+    }
+    if r.rtype == rr::ZONEMD && r.rdata.len() < 6 + 12 {
+        // RFC 8976 §2.2.4: the digest is at least 12 octets (the library
+        // rejects shorter ones when parsing).
+        r.rdata.resize(6 + 12, 0x5a);
+    }
+    if r.rtype == rr::NSEC3 && r.rdata.len() >= 6 {
+        // RFC 5155 §3.1.6/§3.2: hash length ranges from 1 to 255 and the
+        // presentation format has no form for an empty next hashed owner.
+        let s = r.rdata[4] as usize;
+        if r.rdata.get(5 + s) == Some(&0) {
+            r.rdata[5 + s] = 1;
+            r.rdata.insert(6 + s, 0xab);
+        }
+    }
+    if r.rtype == rr::TXT && r.rdata.is_empty() {
+        // "TXT record data is not allowed to be empty" (Txt::from_octets
+        // docs, RFC 1035 §3.3.14: one or more strings): the smallest TXT
+        // value is one empty string.
+        r.rdata.push(0);
+    }
+    if r.rtype == rr::IPSECKEY && r.rdata.len() >= 3 {
+        // RFC 4025 §3.2: the public key field is omitted exactly when the
+        // algorithm is 0; "algorithm n, no key" has no presentation form.
+        let gwlen = match r.rdata[1] {
+            1 => 4,
+            2 => 16,
+            3 => rr::name_spans(r.rtype, &r.rdata).first().map(|s| s.1).unwrap_or(0),
+            _ => 0,
+        };
+        if r.rdata.len() == 3 + gwlen {
+            r.rdata[2] = 0;
+        }
+    }
+}
+
+//------------ Field walker ----------------------------------------------------
+
+/// Kinds of RDATA/record fields rendered through an escaping routine.
+#[derive(Clone, Copy, PartialEq, Eq, Debug, PartialOrd, Ord)]
+enum FK {
+    Owner,
+    RdataName,
+    CharStr,
+    Txt,
+    CaaValue,
+    SvcAlpn,
+    SvcDohpath,
+    SvcOpaque,
+    /// Base16/32/64 rendered field (never sanitised; for class labels only)
+    Binary,
+}
+const FKS: [FK; 8] =
+    [FK::Owner, FK::RdataName, FK::CharStr, FK::Txt, FK::CaaValue, FK::SvcAlpn, FK::SvcDohpath, FK::SvcOpaque];
+
+impl FK {
+    fn name(self) -> &'static str {
+        match self {
+            FK::Owner => "owner",
+            FK::RdataName => "rdata-name",
+            FK::CharStr => "charstr",
+            FK::Txt => "txt",
+            FK::CaaValue => "caa-value",
+            FK::SvcAlpn => "svcparam-alpn",
+            FK::SvcDohpath => "svcparam-dohpath",
+            FK::SvcOpaque => "svcparam-opaque",
+            FK::Binary => "binary",
+        }
+    }
+}
+
+/// Content ranges (offset, len) of the escaped fields of uncompressed
+/// RDATA: name label contents, char-string contents, CAA value, SVCB alpn
+/// ids and opaque SVCB values.
+fn rdata_spans(rtype: u16, rd: &[u8]) -> Vec<(FK, usize, usize)> {
+    let mut out = vec![];
+    let Some(fields) = rr::schema(rtype) else { return out };
+    let end = rd.len();
+    let mut pos = 0usize;
+    let mut gw = 0u8;
+    let name_at = |pos: usize, out: &mut Vec<(FK, usize, usize)>| -> Option<usize> {
+        let mut p = pos;
+        loop {
+            let n = *rd.get(p)? as usize;
+            p += 1;
+            if n == 0 {
+                return Some(p);
+            }
+            if n > 63 || p + n > end {
+                return None;
+            }
+            out.push((FK::RdataName, p, n));
+            p += n;
+        }
+    };
+    for (i, f) in fields.iter().enumerate() {
+        if pos > end {
+            return out;
+        }
+        match *f {
+            F::U8 => {
+                if rtype == rr::IPSECKEY && i == 1 && pos < end {
+                    gw = rd[pos];
+                }
+                pos += 1
+            }
+            F::U16 => pos += 2,
+            F::U32 => pos += 4,
+            F::U48 => pos += 6,
+            F::Fixed(n) => pos += n,
+            F::Name { .. } => match name_at(pos, &mut out) {
+                Some(p) => pos = p,
+                None => return out,
+            },
+            F::CharStr => {
+                if pos >= end {
+                    return out;
+                }
+                let n = rd[pos] as usize;
+                out.push((FK::CharStr, pos + 1, n));
+                pos += 1 + n;
+            }
+            F::CharStrs => {
+                while pos < end {
+                    let n = rd[pos] as usize;
+                    if pos + 1 + n > end {
+                        return out;
+                    }
+                    out.push((FK::Txt, pos + 1, n));
+                    pos += 1 + n;
+                }
+            }
+            F::Len8 => {
+                if pos >= end {
+                    return out;
+                }
+                out.push((FK::Binary, pos + 1, rd[pos] as usize));
+                pos += 1 + rd[pos] as usize;
+            }
+            F::CaaTag => {
+                if pos >= end {
+                    return out;
+                }
+                pos += 1 + rd[pos] as usize;
+            }
+            F::Len16 => {
+                if pos + 2 > end {
+                    return out;
+                }
+                pos += 2 + u16::from_be_bytes([rd[pos], rd[pos + 1]]) as usize;
+            }
+            F::IpsecGateway => match gw {
+                1 => pos += 4,
+                2 => pos += 16,
+                3 => match name_at(pos, &mut out) {
+                    Some(p) => pos = p,
+                    None => return out,
+                },
+                _ => {}
+            },
+            F::Rest => {
+                if rtype == rr::CAA && pos <= end {
+                    out.push((FK::CaaValue, pos, end - pos));
+                } else if pos <= end {
+                    out.push((FK::Binary, pos, end - pos));
+                }
+                pos = end;
+            }
+            F::SvcParams => {
+                while pos + 4 <= end {
+                    let k = u16::from_be_bytes([rd[pos], rd[pos + 1]]);
+                    let n = u16::from_be_bytes([rd[pos + 2], rd[pos + 3]]) as usize;
+                    let v = pos + 4;
+                    if v + n > end {
+                        return out;
+                    }
+                    match k {
+                        1 => {
+                            let mut p = v;
+                            while p < v + n {
+                                let l = rd[p] as usize;
+                                if p + 1 + l > v + n {
+                                    break;
+                                }
+                                out.push((FK::SvcAlpn, p + 1, l));
+                                p += 1 + l;
+                            }
+                        }
+                        0 | 2 | 3 | 4 | 5 | 6 | 8 | 9 => {}
+                        7 => out.push((FK::SvcDohpath, v, n)),
+                        _ => out.push((FK::SvcOpaque, v, n)),
+                    }
+                    pos = v + n;
+                }
+                pos = end;
+            }
+            F::Bitmap | F::OptOptions => pos = end,
+        }
+    }
+    out
+}
+
+//------------ Octet classes -----------------------------------------------------
+
+/// Classes of octets that presentation format treats specially.
+const OCS: [&str; 16] = [
+    "dquote", "paren", "semicolon", "space", "tab", "newline", "ctl", "del", "high", "backslash", "dot", "at", "dollar",
+    "hash", "comma", "other-punct",
+];
+
+fn oc_of(b: u8) -> Option<usize> {
+    Some(match b {
+        b'"' => 0,
+        b'(' | b')' => 1,
+        b';' => 2,
+        b' ' => 3,
+        b'\t' => 4,
+        b'\n' | b'\r' => 5,
+        0..=0x1f => 6,
+        0x7f => 7,
+        0x80..=0xff => 8,
+        b'\\' => 9,
+        b'.' => 10,
+        b'@' => 11,
+        b'$' => 12,
+        b'#' => 13,
+        b',' => 14,
+        b'0'..=b'9' | b'a'..=b'z' | b'A'..=b'Z' | b'-' | b'_' => return None,
+        _ => 15,
+    })
+}
+
+/// Replaces every octet `b` of the selected field kinds for which
+/// `sel(fk, class-of-b)` holds by `x`.
+fn sanitize(r: &Rec, sel: &dyn Fn(FK, usize) -> bool) -> Rec {
+    let mut out = r.clone();
+    for l in out.owner.iter_mut() {
+        // the wildcard label is not a special octet
+        if l.as_slice() == b"*" {
+            continue;
+        }
+        for b in l.iter_mut() {
+            if let Some(c) = oc_of(*b) {
+                if sel(FK::Owner, c) {
+                    *b = b'x';
+                }
+            }
+        }
+    }
+    for (fk, off, len) in rdata_spans(r.rtype, &r.rdata) {
+        if fk == FK::Binary || (fk == FK::RdataName && &r.rdata[off..off + len] == b"*") {
+            continue;
+        }
+        for b in out.rdata[off..off + len].iter_mut() {
+            if let Some(c) = oc_of(*b) {
+                if sel(fk, c) {
+                    *b = b'x';
+                }
+            }
+        }
+    }
+    out
+}
+
+/// (field kind, octet class) pairs present in the record.
+fn present(r: &Rec) -> Vec<(FK, usize)> {
+    let mut v = vec![];
+    for l in &r.owner {
+        if l.as_slice() == b"*" {
+            continue;
+        }
+        for &b in l {
+            if let Some(c) = oc_of(b) {
+                v.push((FK::Owner, c));
+            }
+        }
+    }
+    for (fk, off, len) in rdata_spans(r.rtype, &r.rdata) {
+        if fk == FK::Binary || (fk == FK::RdataName && &r.rdata[off..off + len] == b"*") {
+            continue;
+        }
+        for &b in &r.rdata[off..off + len] {
+            if let Some(c) = oc_of(b) {
+                v.push((fk, c));
+            }
+        }
+    }
+    v.sort();
+    v.dedup();
+    v
+}
+
+/// The (field kind, octet class) pairs excluded in restricted mode: exactly
+/// the shapes of the known, unfixed findings (see known_findings.d/C06.json).
+fn excluded(fk: FK, oc: usize) -> bool {
+    let _ = (fk, oc);
+    false
+}
+
+fn restrict(r: &Rec) -> Rec {
+    let r = sanitize(r, &|fk, oc| excluded(fk, oc));
+    // C06-F1: no-default-alpn is written under a name the reader rejects
+    svc_without(&r, &|k| k == 2)
+}
+
+//------------ Typed value, writer, reader ----------------------------------------
+
+fn record_wire(r: &Rec, class: u16) -> Vec<u8> {
+    let mut a = wire::Asm::new(0, 0);
+    a.record(1, &r.owner, r.rtype, class, r.ttl, &r.rdata);
+    a.buf[12..].to_vec()
+}
+
+/// Parses the generated wire record into the typed, flat value.
+fn typed(r: &Rec, class: u16) -> Result<ZRec, String> {
+    let mut a = wire::Asm::new(0, 0);
+    a.record(1, &r.owner, r.rtype, class, r.ttl, &r.rdata);
+    let msg = Message::from_octets(Bytes::from(a.buf)).map_err(|e| format!("message: {e}"))?;
+    let mut sec = msg.answer().map_err(|e| format!("answer: {e}"))?;
+    let pr = sec.next().ok_or("no record")?.map_err(|e| format!("record: {e}"))?;
+    let rec = pr
+        .to_record::<ZoneRecordData<Bytes, ParsedName<Bytes>>>()
+        .map_err(|e| format!("rdata: {e}"))?
+        .ok_or("to_record gave None")?;
+    let flat: ZRec = rec.flatten_into();
+    Ok(flat)
+}
+
+fn compose<N: domain::base::ToName, D: domain::base::rdata::RecordData + domain::base::rdata::ComposeRecordData>(
+    r: &Record<N, D>,
+) -> Vec<u8> {
+    let mut v = Vec::new();
+    r.compose(&mut v).expect("compose into Vec");
+    v
+}
+
+fn write_record(rec: &ZRec, kind: u8) -> Result<String, String> {
+    use std::fmt::Write;
+    let mut s = String::new();
+    write!(s, "{}", rec.display_zonefile(display_kind(kind))).map_err(|_| "fmt::Error".to_string())?;
+    s.push('\n');
+    Ok(s)
+}
+
+/// Harness-side writer for the RFC 3597 generic form; names are written
+/// with every octet outside [A-Za-z0-9-_] as a decimal escape.
+fn write_generic(r: &Rec, class: u16, kind: u8) -> String {
+    let mut s = String::new();
+    if r.owner.is_empty() {
+        s.push('.');
+    }
+    for l in &r.owner {
+        for &b in l {
+            if b.is_ascii_alphanumeric() || b == b'-' || b == b'_' {
+                s.push(b as char);
+            } else {
+                s.push_str(&format!("\\{b:03}"));
+            }
+        }
+        s.push('.');
+    }
+    let sep = if kind == 1 { '\t' } else { ' ' };
+    let cls = match class {
+        1 => "IN".to_string(),
+        3 => "CH".to_string(),
+        4 => "HS".to_string(),
+        n => format!("CLASS{n}"),
+    };
+    s.push(sep);
+    s.push_str(&r.ttl.to_string());
+    s.push(sep);
+    s.push_str(&cls);
+    s.push(sep);
+    // kind 0: mnemonic where there is one, else TYPEn
+    if kind == 2 {
+        s.push_str(&format!("TYPE{}", r.rtype));
+    } else {
+        s.push_str(&rr::mnemonic(r.rtype));
+    }
+    s.push(sep);
+    s.push_str(&format!("\\# {}", r.rdata.len()));
+    if kind == 2 && !r.rdata.is_empty() {
+        s.push_str(" (");
+    }
+    for (i, b) in r.rdata.iter().enumerate() {
+        // hex in words of varying length, upper and lower case
+        if i % 7 == 0 {
+            s.push(if kind == 2 && i > 0 && i % 21 == 0 { '\n' } else { ' ' });
+        }
+        if i % 2 == 0 {
+            s.push_str(&format!("{b:02x}"));
+        } else {
+            s.push_str(&format!("{b:02X}"));
+        }
+    }
+    if kind == 2 && !r.rdata.is_empty() {
+        s.push_str(" )");
+    }
+    s.push('\n');
+    s
+}
+
+#[derive(Debug)]
+struct Fail {
+    phase: &'static str,
+    detail: String,
+}
+
+/// Reads `text` and compares with the expected uncompressed compositions.
+fn read_and_compare(text: &str, origin: &Option<Labels>, expect: &[Vec<u8>]) -> Result<(), Fail> {
+    let mut zf = Zonefile::from(text.as_bytes());
+    if let Some(o) = origin {
+        zf.set_origin(gn::to_name_bytes(o));
+    }
+    let mut i = 0usize;
+    loop {
+        match zf.next_entry() {
+            Err(e) => {
+                return Err(Fail { phase: "reader-error", detail: format!("entry {i}: {e}") });
+            }
+            Ok(None) => break,
+            Ok(Some(Entry::Include { .. })) => {
+                return Err(Fail { phase: "not-a-record", detail: format!("entry {i} read as $INCLUDE") });
+            }
+            Ok(Some(Entry::Record(rec))) => {
+                if i >= expect.len() {
+                    return Err(Fail { phase: "extra-record", detail: format!("more than {} records read", expect.len()) });
+                }
+                let got = compose(&rec);
+                if got != expect[i] {
+                    return Err(Fail {
+                        phase: "differs",
+                        detail: format!("record {i}:\n  written {}\n  read    {}", hex(&expect[i]), hex(&got)),
+                    });
+                }
+                i += 1;
+            }
+        }
+    }
+    if i != expect.len() {
+        return Err(Fail { phase: "missing-record", detail: format!("{i} records read, {} written", expect.len()) });
+    }
+    Ok(())
+}
+
+fn hex(b: &[u8]) -> String {
+    let mut s = String::new();
+    for (i, x) in b.iter().enumerate() {
+        if i >= 300 {
+            s.push('…');
+            break;
+        }
+        s.push_str(&format!("{x:02x}"));
+    }
+    s
+}
+
+/// One full write/read round trip of a file of records. Ok(text) on success.
+fn roundtrip(recs: &[Rec], class: u16, kind: u8, origin: &Option<Labels>, mode: Mode) -> Result<String, (Fail, String)> {
+    let mut text = String::new();
+    let mut expect = vec![];
+    for r in recs {
+        let t = match typed(r, class) {
+            Ok(t) => t,
+            Err(e) => return Err((Fail { phase: "gen-rejected", detail: e }, String::new())),
+        };
+        expect.push(compose(&t));
+        if mode == Mode::Generic {
+            text.push_str(&write_generic(r, class, kind));
+        } else {
+            match write_record(&t, kind) {
+                Ok(s) => text.push_str(&s),
+                Err(e) => return Err((Fail { phase: "writer-error", detail: e }, text)),
+            }
+        }
+    }
+    match guarded("zonefile reader", || read_and_compare(&text, origin, &expect)) {
+        Ok(Ok(())) => Ok(text),
+        Ok(Err(f)) => Err((f, text)),
+        Err(v) => Err((Fail { phase: "reader-panic", detail: v.detail }, text)),
+    }
+}
+
+//------------ Attribution of a failure to a writer routine ----------------------
+
+/// Signature of the failure of a single record: which escaped field kind
+/// and which octet class is by itself sufficient to make the round trip
+/// fail (everything else replaced by harmless octets).
+fn attribute(r: &Rec, class: u16, kind: u8, origin: &Option<Labels>, mode: Mode, f: &Fail) -> String {
+    let fails = |x: &Rec| roundtrip(std::slice::from_ref(x), class, kind, origin, mode).is_err();
+    // no case-specific values in signatures: unknown type codes are "unknown"
+    let ty = if rr::schema(r.rtype).is_some() { rr::mnemonic(r.rtype) } else { "unknown".to_string() };
+    let pres = present(r);
+    // nothing special anywhere → not an escaping problem
+    let all_clean = sanitize(r, &|_, _| true);
+    if pres.is_empty() || fails(&all_clean) {
+        if let Some((_, params)) = svc_split(&all_clean) {
+            // which single parameter is enough to make it fail?
+            for (k, _) in &params {
+                if *k == 0 {
+                    continue;
+                }
+                let only = svc_without(&all_clean, &|x| x != *k);
+                if fails(&only) {
+                    return format!("roundtrip:{}:{ty}:svcparam-key{k}", f.phase);
+                }
+            }
+        }
+        return format!("roundtrip:{}:{ty}", f.phase);
+    }
+    for fk in FKS {
+        if !pres.iter().any(|p| p.0 == fk) {
+            continue;
+        }
+        // isolate the field kind
+        let only_fk = sanitize(r, &|k, _| k != fk);
+        if !fails(&only_fk) {
+            continue;
+        }
+        for (oc, ocname) in OCS.iter().enumerate() {
+            if !pres.contains(&(fk, oc)) {
+                continue;
+            }
+            let only = sanitize(r, &|k, c| !(k == fk && c == oc));
+            if fails(&only) {
+                let fkn = if fk == FK::CharStr { format!("charstr-{ty}") } else { fk.name().to_string() };
+                return format!("unescaped:{fkn}:{ocname}");
+            }
+        }
+        return format!("unescaped:{}:combination", fk.name());
+    }
+    format!("unescaped:combination:{ty}")
+}
+
+//------------ The check ------------------------------------------------------------
+
+fn nontrivial_text(text: &str, case: &Case) -> bool {
+    text.contains('\\')
+        || text.contains('"')
+        || case.recs.iter().any(|r| {
+            r.owner.iter().any(|l| l.iter().any(|b| !(b.is_ascii_alphanumeric() || *b == b'-')))
+                || rr::schema(r.rtype).map(|s| s.len() > 1 || matches!(s[0], F::Rest)).unwrap_or(true)
+        })
+}
+
+fn run_mode(data: &[u8], ctx: &mut Ctx, mode: Mode) -> CaseResult {
+    let mut u = Unstructured::new(data);
+    let case = decode(&mut u, mode);
+    let kname = KINDS[case.kind as usize];
+    ctx.class(format!("kind:{kname}"));
+    ctx.class(if case.origin.is_some() { "origin:set" } else { "origin:none" });
+    ctx.class(match case.class {
+        1 => "class:IN",
+        3 => "class:CH",
+        4 => "class:HS",
+        _ => "class:CLASSn",
+    });
+    ctx.class(format!("records:{}", case.recs.len().min(4)));
+    for r in &case.recs {
+        let known = rr::schema(r.rtype).is_some() && r.rtype != rr::NULL;
+        if known {
+            ctx.class(format!("type:{}:{kname}", rr::mnemonic(r.rtype)));
+        } else {
+            ctx.class(format!("type:unknown:{kname}"));
+        }
+        match r.ttl {
+            0 => ctx.class("ttl:0"),
+            0x7fff_ffff => ctx.class("ttl:2^31-1"),
+            0x8000_0000 => ctx.class("ttl:2^31"),
+            0xffff_ffff => ctx.class("ttl:2^32-1"),
+            _ => {}
+        }
+        if r.owner.is_empty() {
+            ctx.class("owner:root");
+        }
+        if gn::wire_len(&r.owner) >= 254 {
+            ctx.class("owner:max-length");
+        }
+        if r.rdata.is_empty() {
+            ctx.class("rdata:empty");
+        }
+        for (fk, oc) in present(r) {
+            ctx.class(format!("octets:{}:{}", fk.name(), OCS[oc]));
+        }
+        for (fk, _, len) in rdata_spans(r.rtype, &r.rdata) {
+            match (fk, len) {
+                (FK::CharStr, 0) | (FK::Txt, 0) => ctx.class("string:empty"),
+                (FK::CharStr, 255) | (FK::Txt, 255) => ctx.class("string:255"),
+                (FK::CaaValue, 0) => ctx.class("caa-value:empty"),
+                (FK::Binary, 0) => ctx.class("binary:empty"),
+                (FK::Binary, n) => ctx.class(format!("binary:len%3={},len%5={}", n % 3, n % 5)),
+                _ => {}
+            }
+        }
+        if r.rtype == rr::TXT && r.rdata == [0] {
+            ctx.class("txt:one-empty-string");
+        }
+        if r.rtype == rr::NSEC3 || r.rtype == rr::NSEC3PARAM {
+            if r.rdata.get(4) == Some(&0) {
+                ctx.class("nsec3:empty-salt");
+            }
+        }
+    }
+
+    // typed values must exist (generator validity; C05 covers parse itself)
+    for r in &case.recs {
+        if let Ok(t) = typed(r, case.class) {
+            if compose(&t) != record_wire(r, case.class) {
+                // parse/compose fidelity is C05's business; recorded only
+                ctx.class("note:typed-compose-differs-from-generated-wire");
+            }
+        }
+        if let Err(e) = typed(r, case.class) {
+            ctx.class(format!("gen-rejected:{}", rr::mnemonic(r.rtype)));
+            ctx.sample(|| format!("generator output rejected by the library: {} {e} rdata={}", rr::mnemonic(r.rtype), hex(&r.rdata)));
+            return Ok(());
+        }
+    }
+
+    match roundtrip(&case.recs, case.class, case.kind, &case.origin, mode) {
+        Ok(text) => {
+            if nontrivial_text(&text, &case) {
+                ctx.nontrivial(&case);
+            }
+            ctx.sample(|| {
+                let mut o = case.origin.as_ref().map(gn::show).unwrap_or_else(|| "-".into());
+                if o.len() > 40 {
+                    o.truncate(40);
+                    o.push('…');
+                }
+                format!("{kname} origin={o} | {}", text.escape_debug())
+            });
+            ctx.class("outcome:equal");
+            Ok(())
+        }
+        Err((f, text)) => {
+            // find the failing records one by one
+            let mut any_single = false;
+            for r in &case.recs {
+                if let Err((f1, t1)) = roundtrip(std::slice::from_ref(r), case.class, case.kind, &case.origin, mode) {
+                    any_single = true;
+                    let sig = attribute(r, case.class, case.kind, &case.origin, mode, &f1);
+                    let sig = if mode == Mode::Generic { format!("generic:{sig}") } else { sig };
+                    ctx.class(format!("finding:{sig}"));
+                    ctx.report(Violation::new(
+                        sig,
+                        format!(
+                            "{} record does not read back ({}, {kname}, origin {:?}, class {}):\n text: {}\n owner: {}\n rdata: {}\n {}",
+                            rr::mnemonic(r.rtype),
+                            f1.phase,
+                            case.origin.as_ref().map(gn::show),
+                            case.class,
+                            t1.escape_debug(),
+                            gn::show(&r.owner),
+                            hex(&r.rdata),
+                            f1.detail
+                        ),
+                    ))?;
+                }
+            }
+            if !any_single {
+                let sig = format!("file:{}:records-interact", f.phase);
+                return Err(Violation::new(
+                    sig,
+                    format!("each record reads back alone, the file does not ({kname}):\n text: {}\n {}", text.escape_debug(), f.detail),
+                ));
+            }
+            Ok(())
+        }
+    }
+}
+
+fn run_full(data: &[u8], ctx: &mut Ctx) -> CaseResult {
+    run_mode(data, ctx, Mode::Full)
+}
+fn run_restricted(data: &[u8], ctx: &mut Ctx) -> CaseResult {
+    run_mode(data, ctx, Mode::Restricted)
+}
+fn run_generic(data: &[u8], ctx: &mut Ctx) -> CaseResult {
+    run_mode(data, ctx, Mode::Generic)
+}
+
+fn health(classes: &BTreeMap<String, u64>, thorough: bool) -> Result<(), String> {
+    let floor = if thorough { 10_000 } else { 2000 };
+    let get = |k: &str| classes.get(k).copied().unwrap_or(0);
+    let mut starved = vec![];
+    for k in KINDS {
+        for t in rr::ZONE_TYPES {
+            let key = format!("type:{}:{k}", rr::mnemonic(*t));
+            if get(&key) < floor {
+                starved.push(format!("{key}={}", get(&key)));
+            }
+        }
+        let key = format!("type:unknown:{k}");
+        if get(&key) < floor {
+            starved.push(format!("{key}={}", get(&key)));
+        }
+    }
+    for k in [
+        "origin:set", "origin:none", "class:IN", "class:CH", "class:HS", "class:CLASSn", "ttl:0", "ttl:2^31-1", "ttl:2^31",
+        "ttl:2^32-1", "owner:root", "owner:max-length", "rdata:empty", "string:empty", "string:255", "txt:one-empty-string",
+        "nsec3:empty-salt", "caa-value:empty", "outcome:equal", "binary:empty",
+    ] {
+        if get(k) < 20 {
+            starved.push(format!("{k}={}", get(k)));
+        }
+    }
+    let rejected: u64 = classes.iter().filter(|(k, _)| k.starts_with("gen-rejected:")).map(|(_, v)| *v).sum();
+    let total = get("kind:simple") + get("kind:tabbed") + get("kind:multiline");
+    if rejected * 20 > total {
+        starved.push(format!("generator output rejected in {rejected} of {total} cases"));
+    }
+    if starved.is_empty() {
+        Ok(())
+    } else {
+        Err(format!("starved classes: {}", starved.join(", ")))
+    }
+}
 
 pub fn prop() -> Option<Prop> {
-    None
+    Some(Prop {
+        id: "C06",
+        rule: "the written text contains an escape or a quoted string, or an owner has an octet outside [A-Za-z0-9-], or the record type has several fields or a Base16/32/64 field",
+        assumptions: &[
+            "writer = ZonefileFmt::display_zonefile on Record<Name<Bytes>, ZoneRecordData<Bytes, Name<Bytes>>>; plain fmt::Display is not the documented zone-file form and is not checked",
+            "files hold records of one class (the reader enforces RFC 1035 §5.2 rule 1), every record ends with a newline (the reader's documented requirement)",
+            "equality = uncompressed wire composition of written and read record, octet for octet (case-exact, TTL included)",
+            "typed values are obtained by parsing generated valid wire RDATA (parse/compose fidelity itself is C05)",
+        ],
+        subchecks: vec![
+            SubCheck::new("full", run_full, 500_000, 3_000_000, 1500),
+            SubCheck::new("restricted", run_restricted, 350_000, 2_200_000, 1500),
+            SubCheck::new("generic", run_generic, 150_000, 800_000, 1200),
+        ],
+        health: Some(health),
+        extra: None,
+    })
 }
